@@ -313,6 +313,14 @@ def key_outside_table(obj):
     for o in graph(obj).values():
         for k in type(o).__mro__:
             for field, keys in KEY_TABLES.get(k.__name__, ()):
+                if field.startswith('tags:'):
+                    # any-attribute item: every element must carry a tag the extracted table has a row for
+                    f = field[5:]
+                    a = getattr(o, '_' + f, None) if hasattr(o, '_' + f) else getattr(o, f, None)
+                    for el in (a if isinstance(a, list) else [a] if a is not None else []):
+                        if getattr(getattr(el, 'tag', None), 'value', None) not in keys:
+                            return True
+                    continue
                 if field.startswith('type:'):
                     # kind chosen by the type byte: the TTLV type of the object held by the attribute must be a modelled row
                     f = field[5:]
@@ -346,8 +354,27 @@ def announces_other_version(cname, bs, v):
     return False
 
 
+CONVERTED = {}       # class -> {tag of an item that is converted to a plain list after decoding (Attributes -> [Attribute])}
+
+
+def empty_converted_item(cname, bs):
+    """the structure contains, at top level, an EMPTY structure where the reader converts the decoded Attributes into a
+    Python list: `[]` is then indistinguishable from an absent field (the writers drop it or refuse it)"""
+    tags = CONVERTED.get(cname)
+    if not tags:
+        return False
+    b, pos = bs[8:], 0
+    while pos + 8 <= len(b):
+        t = int.from_bytes(b[pos:pos + 3], 'big')
+        ln = struct.unpack('!I', b[pos + 4:pos + 8])[0]
+        if t in tags and b[pos + 3] == 1 and ln == 0:
+            return True
+        pos += 8 + ln + ((8 - ln % 8) % 8 if b[pos + 3] != 1 else 0)
+    return False
+
+
 def scase(v, tag, cname, bs, obj, rest, rew):
-    if announces_other_version(cname, bs, v):
+    if announces_other_version(cname, bs, v) or empty_converted_item(cname, bs):
         return None
     if obj is not None and key_outside_table(obj):
         return None
@@ -374,6 +401,15 @@ def struct_cases(ctx, doc, oracle, only=None):
     n_mut_src = 2 if quick else 10
     per_class = {}
     KEY_TABLES.clear()
+    for cdoc in doc['classes']:
+        for it in cdoc['rd']:
+            if it['kind'][0] == 'tagged':
+                KEY_TABLES.setdefault(cdoc['name'], []).append(('tags:' + it['field'], {r[0] for r in (doc.get('tables') or {}).get(it['kind'][1], {}).get('rows', [])}))
+    CONVERTED.clear()
+    for cdoc in doc['classes']:
+        tg = {it['tag'] for it in cdoc['rd'] if it.get('converted') and it['kind'][0] == 'struct'}
+        if tg:
+            CONVERTED[cdoc['name']] = tg
     REBIND.clear()
     REBIND.update({c['name']: (1 if c.get('rebind_nested') else 0) for c in doc['classes'] if c.get('rebind') is not None})
     for cdoc in doc['classes']:
@@ -696,6 +732,13 @@ def probes(ctx, oracle):
         ctx.count('probe.responseheader-correlation.%s' % ('accepted' if obj is not None else 'refused'))
         if obj is not None:
             oracle.accepted('ResponseHeader', _messages.ResponseHeader, v, bs, obj, rest, True)
+    # GetAttributes response under 2.0 with an empty Attributes structure: accepted by read(), refused by write()
+    from kmip.core.messages import payloads as _payloads
+    bs = bytes.fromhex('42007c0100000018420094070000000131000000000000004201250100000000')
+    obj, rest = impl_read(_payloads.GetAttributesResponsePayload, bs, 20)
+    ctx.count('probe.getattributes-resp-empty-2.0.%s' % ('accepted' if obj is not None else 'refused'))
+    if obj is not None:
+        oracle.accepted('GetAttributesResponsePayload', _payloads.GetAttributesResponsePayload, 20, bs, obj, rest, False)
     # constructible values that must survive encode -> decode (found while building the translator)
     for name, mk, v in (
         ('ActivateRequestPayload', lambda: payloads.ActivateRequestPayload(), 10),
